@@ -138,6 +138,9 @@ func (s *PagedSlice[T]) Del(index int) {
 
 	lastIndex := s.len - 1
 	s.pages[index/s.pageSize][index%s.pageSize] = s.pages[lastIndex/s.pageSize][lastIndex%s.pageSize]
+	// 清空被移走的末尾槽位，避免之后 Grow 时重新暴露已删除的元素
+	var zero T
+	s.pages[lastIndex/s.pageSize][lastIndex%s.pageSize] = zero
 
 	s.len--
 	if s.len%s.pageSize == 0 && len(s.pages) > 1 {
